@@ -349,6 +349,15 @@ Definition wit_loop : prog :=
       NStmt (mkStmt 2 (KAlloc []) [] [] true);
       NBlock [NStmt (mkStmt 3 (KAlloc [1]) [2] [1; 2] true); NStmt (mkStmt 4 (KMove 0 1) [1] [1; 0] true)]])])].
 
+(* u0 <- <state>z; <state>z <- u0 for i in [0,3); <state>z <- f(0, <state>z)
+   0 = <state>z, 1 = temp__state_z, 2 = u0: the move inside the loop is the last mention of u0 *)
+Definition wit_loop_move : prog :=
+  mkProg [0] [0] 0 [mkPhase 0 0 [1; 2] (NBlock [
+    NStmt (mkStmt 0 (KMove 2 0) [0] [0; 2] true);
+    NFor 3 (NStmt (mkStmt 1 (KMove 0 2) [2] [0; 2] true));
+    NBlock [NStmt (mkStmt 2 (KMove 1 0) [0] [0; 1] true);
+            NBlock [NStmt (mkStmt 3 (KAlloc []) [] [] true); NStmt (mkStmt 4 (KAlloc [0]) [1] [0; 1] true)]]])].
+
 Definition vT : nat -> bool := valuation [0].   (* the guard flag holds *)
 Definition vF : nat -> bool := valuation [].
 
@@ -383,6 +392,16 @@ Proof.
   - destruct (H (UseNull 2) _ ltac:(vm_compute; reflexivity)) as [x Hx]. discriminate.
   - destruct (H (UseNull 2) _ ltac:(vm_compute; reflexivity)) as [x Hx]. discriminate.
 Qed.
+
+(* the same defect seen through a move: the second trip moves from the nullified u0 (the real
+   program then increments through u0's stale counter pointer: heap-use-after-free under ASan) *)
+Example loop_move_faults :
+  exists st, run_mem (emit_mem false false wit_loop_move) [0] [vF] = HFault (UseNull 2) st.
+Proof. eexists. vm_compute. reflexivity. Qed.
+Example loop_move_fixed :
+  exists st, prog_wf wit_loop_move = true /\
+             run_mem (emit_mem true true wit_loop_move) [0] [vF] = HDone st [] /\ live_blocks st = [].
+Proof. eexists. vm_compute. auto. Qed.
 
 (* every allocated block is released once: false as soon as one is never released *)
 Lemma free_once_refuted sw_loop : ~ free_once_stmt false sw_loop.
